@@ -113,6 +113,47 @@ def evaluate(call, keep=None):
             if keep is not None:
                 keep.append(x)
             return ['ok', x.bin]
+        if kind == 'derive':
+            how, lit, cname = call[1], call[2], call[3]
+            c = getattr(bs, cname)
+            if how == 'pack_bits':
+                o = bs.pack('bits', lit)
+            elif how == 'pack_bits_len':
+                o = bs.pack(f'bits:{len(bs.Bits(lit))}', lit)
+            elif how == 'pack_kw':
+                o = bs.pack('bits=v', v=lit)
+            elif how == 'pack_token':
+                o = bs.pack(lit)
+            elif how == 'add_left':
+                o = c() + lit
+            elif how == 'add_right':
+                o = lit + c()
+            elif how == 'join':
+                o = c().join([lit])
+            elif how == 'bits_kw':
+                o = c(bits=lit)
+            elif how == 'setattr_bits':
+                o = bs.BitArray('0b1')
+                o.bits = lit
+            elif how == 'dtype_build':
+                o = c(bs.Dtype('bits').build(lit))
+            elif how == 'iadd':
+                o = bs.BitArray()
+                o += lit
+            elif how == 'prepend':
+                o = bs.BitStream()
+                o.prepend(lit)
+            elif how == 'replace_new':
+                o = bs.BitArray('0b1')
+                o.replace('0b1', lit)
+            elif how == 'insert':
+                o = bs.BitArray()
+                o.insert(lit, 0)
+            else:
+                raise HarnessError('unknown derive ' + how)
+            if keep is not None:
+                keep.append(o)
+            return ['ok', o.bin, type(o).__name__]
         if kind == 'pp':
             import io
             s = io.StringIO()
@@ -278,6 +319,8 @@ def call_st(draw):
     if k == 10:
         bits = draw(bits_st(max_len=24, min_len=8))
         return ['setattr', bits, draw(st.sampled_from(['uint8', 'e4m3mxfp', 'e5m2mxfp', 'hex', 'int12', 'float32'])), draw(st.sampled_from([3, 1000, 'ff', 1.5, -2, 60000]))]
+    if draw(st.booleans()):
+        return ['derive', draw(st.sampled_from(DERIVES)), draw(st.sampled_from(HOT)), draw(st.sampled_from(CLASSES))]
     return ['pp', draw(bits_st(max_len=40, min_len=8)), draw(st.sampled_from(['bin', 'hex', 'bin8, hex', 'oct6', 'hex4']))]
 
 
@@ -303,6 +346,24 @@ def step_st(draw):
 def history_st(draw, tier):
     n = draw(st.integers(10, 120 if tier == 'quick' else 500))
     return {'steps': draw(st.lists(step_st(), min_size=n, max_size=n))}
+
+
+HOT = ['0xabc', '0b1011', '0xff00', '0o17', '0x1', 'uint:8=5', '0b0', 'hex=a5', '2*(0b10)', 'e4m3mxfp=1000']
+DERIVES = ['pack_bits', 'pack_bits_len', 'pack_kw', 'pack_token', 'add_left', 'add_right', 'join', 'bits_kw', 'setattr_bits', 'dtype_build', 'iadd', 'prepend', 'replace_new', 'insert']
+
+
+@st.composite
+def literal_sharing_st(draw, tier):
+    """derive a (mutable) object from a literal string through some route, mutate it in place, then parse the same literal again"""
+    lit = draw(st.sampled_from(HOT))
+    steps = [['call', ['construct', draw(st.sampled_from(CLASSES)), lit]]] if draw(st.booleans()) else []
+    for _ in range(draw(st.integers(1, 4))):
+        steps.append(['call', ['derive', draw(st.sampled_from(DERIVES)), lit, draw(st.sampled_from(CLASSES))]])
+        steps.append(['mutate', 0, draw(st.sampled_from(['invert', 'append', 'set0', 'clear', 'reverse', 'bytes_edit']))])
+        steps.append(['call', [draw(st.sampled_from(['construct', 'fromstring'])), draw(st.sampled_from(CLASSES)), lit]])
+        if draw(st.booleans()):
+            steps.append(['call', ['derive', draw(st.sampled_from(DERIVES)), lit, draw(st.sampled_from(CLASSES))]])
+    return {'steps': steps}
 
 
 @st.composite
@@ -351,7 +412,7 @@ def run(case):
         if kind == 'mutate':
             objs = [o for o in kept if isinstance(o, bs.BitArray)]
             if objs:
-                o = objs[step[1] % len(objs)]
+                o = objs[-1 - (step[1] % len(objs))]      # 0 = the most recently created mutable result
                 how = step[2]
                 if how == 'invert' and len(o):
                     o.invert()
@@ -408,6 +469,7 @@ def run(case):
 
 SUBCHECKS = [
     Sub('C09.string_cache_options_and_mutation', run, strategy=focused_options_st, examples={'quick': 1500, 'thorough': 20000}),
+    Sub('C09.literal_sharing', run, strategy=literal_sharing_st, examples={'quick': 1500, 'thorough': 20000}),
     Sub('C09.dtype_cache', run, strategy=dtype_focus_st, examples={'quick': 800, 'thorough': 10000}),
     Sub('C09.history', run, strategy=history_st, examples={'quick': 500, 'thorough': 6000}),
 ]
